@@ -42,6 +42,18 @@ pub trait Engine: Sync {
 }
 
 /// Re-executes `tape` until a violation of `invariant` shows (at most `engine.reproduce_attempts()` times).
+/// (property, invariant, signature) of the recorded known findings: a violation that IS a known finding never counts
+/// as a reproduction of another violation of the same invariant (shrinking must not drift from an unknown violation
+/// into a known one).
+static KNOWN_SIGNATURES: Mutex<Vec<(String, String, String)>> = Mutex::new(Vec::new());
+
+fn is_known_finding(v: &Violation) -> bool {
+  KNOWN_SIGNATURES
+    .lock()
+    .map(|k| k.iter().any(|(p, i, s)| *p == v.property && *i == v.invariant && *s == v.signature))
+    .unwrap_or(false)
+}
+
 pub fn reproduce(
   engine: &dyn Engine,
   property: &str,
@@ -52,7 +64,7 @@ pub fn reproduce(
 ) -> Option<Outcome> {
   for _ in 0..engine.reproduce_attempts().max(1) {
     if let Ok(out) = run_one(engine, property, params, Tape::replay(tape.to_vec()), keep_trace) {
-      if out.violations.iter().any(|v| v.invariant == invariant && v.property == property) {
+      if out.violations.iter().any(|v| v.invariant == invariant && v.property == property && !is_known_finding(v)) {
         return Some(out);
       }
     }
@@ -318,6 +330,16 @@ pub fn run_batch(engine: &dyn Engine, cfg: &BatchCfg) -> BatchResult {
   let stop = AtomicBool::new(false);
   let total = Mutex::new(Acc::default());
   let known = KnownFindings::load(&cfg.verif_dir);
+  if let Ok(mut k) = KNOWN_SIGNATURES.lock() {
+    *k = known
+      .entries
+      .iter()
+      .map(|e| {
+        let f = |n: &str| e.get(n).and_then(Value::as_str).unwrap_or("").to_owned();
+        (f("property"), f("invariant"), f("signature"))
+      })
+      .collect();
+  }
   let sample_idx: Vec<u64> = vec![0, 1, cfg.runs / 2];
   let samples: Mutex<BTreeMap<u64, Value>> = Mutex::new(BTreeMap::new());
   let nontrivial_sample: Mutex<Option<(u64, Value)>> = Mutex::new(None);
@@ -439,7 +461,7 @@ pub fn run_batch(engine: &dyn Engine, cfg: &BatchCfg) -> BatchResult {
     for _ in 0..engine.reproduce_attempts().max(1) {
       match run_one(engine, &cfg.property, &cfg.params, Tape::record(run_seed), false) {
         Ok(o) => {
-          if o.violations.iter().any(|x| x.invariant == v.invariant) {
+          if o.violations.iter().any(|x| x.invariant == v.invariant && !is_known_finding(x)) {
             first = Some(o);
             break;
           }
@@ -471,7 +493,7 @@ pub fn run_batch(engine: &dyn Engine, cfg: &BatchCfg) -> BatchResult {
     let mv = out
       .violations
       .iter()
-      .find(|x| x.invariant == v.invariant)
+      .find(|x| x.invariant == v.invariant && !is_known_finding(x))
       .cloned()
       .unwrap_or_else(|| v.clone());
     // A minimised trace may have turned into a known finding's signature; then it is that finding.
